@@ -348,3 +348,77 @@ func c09Listeners(t *testing.T, res *verifResult) (string, string) {
 	res.Extra["listener_cases"] = len(cases)
 	return sb.String(), idx.String()
 }
+
+// The operator's two requests over ONE resumed TLS session (listener configured like main()'s admin server, the
+// client keeps a session cache and opens a new connection per request): wrong passphrase, then the right one.
+// What the handler gets on the resumed connection is whatever crypto/tls restores from the session ticket; the
+// steps are shipped as one more injection sequence in the model's terms (verified admin chain both times), so a
+// resumed connection that reached the handler WITHOUT verified chain would show as 403 against the model's 200.
+func c09Resumed(t *testing.T, res *verifResult, v c09Variant) ([]c09Op, []c09Obs) {
+	env := c09Sealed(t, v, nil)
+	st := env.state
+	mux := http.NewServeMux()
+	var seen []string
+	var seenMu sync.Mutex
+	mux.HandleFunc(secretInjectorPath, func(w http.ResponseWriter, r *http.Request) {
+		seenMu.Lock()
+		if r.TLS != nil {
+			seen = append(seen, fmt.Sprintf("resumed=%v presented=%d verified_chains=%d", r.TLS.DidResume, len(r.TLS.PeerCertificates), len(r.TLS.VerifiedChains)))
+		}
+		seenMu.Unlock()
+		st.secretInjectorHandler(w, r)
+	})
+	srv := httptest.NewUnstartedServer(mux)
+	srv.Config.ErrorLog = nil
+	srv.TLS = &tls.Config{ClientCAs: st.ClientCAPool, ClientAuth: tls.VerifyClientCertIfGiven, MinVersion: tls.VersionTLS12}
+	srv.StartTLS()
+	defer srv.Close()
+	adminPair, err := tls.LoadX509KeyPair(filepath.Join(env.dir, "etc/keymaster/adminClient.pem"), filepath.Join(env.dir, "etc/keymaster/adminClient.key"))
+	if err != nil {
+		t.Fatal(err)
+	}
+	tc := &tls.Config{InsecureSkipVerify: true, ClientSessionCache: tls.NewLRUClientSessionCache(4),
+		GetClientCertificate: func(*tls.CertificateRequestInfo) (*tls.Certificate, error) { return &adminPair, nil }}
+	client := &http.Client{Transport: &http.Transport{TLSClientConfig: tc, DisableKeepAlives: true}, Timeout: 20 * time.Second}
+	var ops []c09Op
+	var obs []c09Obs
+	ready := 0
+	resumedAny := false
+	for _, pass := range []string{"wrong passphrase", verifPassphrase, verifPassphrase} {
+		form := url.Values{}
+		form.Set("ssh_ca_password", pass)
+		resp, err := client.PostForm(srv.URL+secretInjectorPath, form)
+		if err != nil {
+			res.hit(verifHit{Key: "C09:harness:resumed-session", Oracle: "harness", What: err.Error(), Case: v.name})
+			return nil, nil
+		}
+		ioutil.ReadAll(resp.Body)
+		resp.Body.Close()
+		if resp.TLS != nil && resp.TLS.DidResume {
+			resumedAny = true
+		}
+		for {
+			select {
+			case <-st.SignerIsReady:
+				ready++
+				continue
+			default:
+			}
+			break
+		}
+		rr := httptest.NewRecorder()
+		st.readyzHandler(rr, httptest.NewRequest("GET", "https://keymaster.example:6920"+readyzPath, nil))
+		st.Mutex.Lock()
+		o := c09Obs{code: resp.StatusCode, readyz: rr.Code, sealed: st.Signer == nil, ed: st.Ed25519Signer != nil, role: st.selfRoleCaCertDer != nil,
+			nca: len(st.caCertDer), npub: len(st.KeymasterPublicKeys), ready: ready}
+		st.Mutex.Unlock()
+		ops = append(ops, c09ConnOp("verified-admin", true, pass))
+		obs = append(obs, o)
+		res.eval(fmt.Sprintf("admin-real|resumed-session|%d", resp.StatusCode), true)
+	}
+	seenMu.Lock()
+	res.Extra["resumed_session"] = map[string]interface{}{"client_saw_resumption": resumedAny, "handler_saw": seen}
+	seenMu.Unlock()
+	res.bump(fmt.Sprintf("resumed_session_client_resumed_%v", resumedAny))
+	return ops, obs
+}
